@@ -66,6 +66,7 @@ type ReplayFile struct {
 	Kind     string   `json:"kind"` // "e1" | "e2"
 	Scenario string   `json:"scenario,omitempty"`
 	Devs     []vs.Dev `json:"devs,omitempty"`
+	Policy   int      `json:"policy,omitempty"`
 	Case     any      `json:"case,omitempty"`
 	Sig      string   `json:"signature"`
 	Msg      string   `json:"message"`
@@ -170,7 +171,7 @@ func (c *Ctx) replay(path string) {
 		os.Exit(0)
 	}
 	if rf.Kind == "e1" {
-		r := vs.Replay(rf.Scenario, rf.Devs)
+		r := vs.ReplayP(rf.Scenario, rf.Devs, rf.Policy, true)
 		for _, l := range r.Trace {
 			fmt.Println(l)
 		}
@@ -257,12 +258,25 @@ func (c *Ctx) writeReplay(rf ReplayFile) string {
 // Explore runs one E1 scenario with the remaining budget share and folds the result in.
 // share is the fraction of the remaining budget this exploration may use.
 func (c *Ctx) Explore(scn string, bound int, share float64) *vs.Summary {
+	return c.ExploreP(scn, bound, share, 0)
+}
+
+// ExploreBoth explores the scenario under both default thread orders (oldest-first and newest-first):
+// the deviation bound is counted from the default schedule, so two different defaults reach
+// different interleavings within the same bound.
+func (c *Ctx) ExploreBoth(scn string, bound int, share float64) {
+	c.ExploreP(scn, bound, share/2, 0)
+	c.ExploreP(scn, bound, share, 1)
+}
+
+// ExploreP is Explore under a given default thread order (0 = oldest first, 1 = newest first).
+func (c *Ctx) ExploreP(scn string, bound int, share float64, policy int) *vs.Summary {
 	rem := time.Until(c.Deadline)
 	if rem < 2*time.Second {
 		rem = 2 * time.Second
 	}
 	dl := time.Now().Add(time.Duration(float64(rem) * share))
-	s := vs.Explore(scn, vs.ExploreOpts{Bound: bound, Workers: c.Workers, Deadline: dl})
+	s := vs.Explore(scn, vs.ExploreOpts{Bound: bound, Workers: c.Workers, Deadline: dl, Policy: policy})
 	c.fold(s)
 	return s
 }
@@ -291,7 +305,12 @@ func (c *Ctx) fold(s *vs.Summary) {
 		sc = map[string]any{}
 		c.notes["scenarios"] = sc
 	}
-	sc[s.Scenario] = info
+	skey := s.Scenario
+	if s.Policy != 0 {
+		skey = fmt.Sprintf("%s@policy%d", s.Scenario, s.Policy)
+		info["default_order"] = "newest thread first"
+	}
+	sc[skey] = info
 	if !s.Exhaustive {
 		c.Cap(fmt.Sprintf("%s: bound %d not completed (completed %d, %s)", s.Scenario, s.BoundTarget, s.BoundCompleted, s.Stopped))
 	}
@@ -303,7 +322,7 @@ func (c *Ctx) fold(s *vs.Summary) {
 		return
 	}
 	for _, v := range s.Violations {
-		c.e1Violation(s.Scenario, v)
+		c.e1ViolationP(s.Scenario, v, s.Policy)
 	}
 }
 
@@ -322,7 +341,11 @@ func (c *Ctx) FoldExec(r *vs.ExecResult) {
 		return
 	}
 	add := func(kind, m string) {
-		c.e1Violation(r.Scenario, vs.Violation{Kind: kind, Msg: m, Devs: r.Devs, Sig: kind + ":" + vs.NormalizeMsg(m)})
+		sig := kind + ":" + vs.NormalizeMsg(m)
+		if kind == "race" {
+			sig = "race:" + vs.RaceSig(m)
+		}
+		c.e1Violation(r.Scenario, vs.Violation{Kind: kind, Msg: m, Devs: r.Devs, Sig: sig})
 	}
 	for _, m := range r.Fails {
 		add("fail", m)
@@ -335,8 +358,14 @@ func (c *Ctx) FoldExec(r *vs.ExecResult) {
 	}
 }
 
-func (c *Ctx) e1Violation(scn string, v vs.Violation) {
+func (c *Ctx) e1Violation(scn string, v vs.Violation) { c.e1ViolationP(scn, v, 0) }
+
+func (c *Ctx) e1ViolationP(scn string, v vs.Violation, policy int) {
 	sig := scn + "|" + v.Sig
+	if len(c.viols) >= 25 {
+		c.Note("violations_not_confirmed_beyond", 25)
+		return
+	}
 	for _, old := range c.viols {
 		if old.Sig == sig {
 			return
@@ -346,18 +375,14 @@ func (c *Ctx) e1Violation(scn string, v vs.Violation) {
 	var last vs.ExecResult
 	for i := 0; i < 5; i++ {
 		var r vs.ExecResult
-		if i == 4 {
-			r = vs.Replay(scn, v.Devs)
-		} else {
-			r = vs.ReplayQuiet(scn, v.Devs)
-		}
+		r = vs.ReplayP(scn, v.Devs, policy, i == 4)
 		if r.HarnessE != "" {
 			c.harnessErr = append(c.harnessErr, fmt.Sprintf("%s: replay of %v: %s", scn, v.Devs, r.HarnessE))
 			return
 		}
 		found := false
 		for _, m := range append(append(append([]string{}, r.Fails...), r.Races...), r.Panics...) {
-			if vs.NormalizeMsg(m) == vs.NormalizeMsg(v.Msg) {
+			if vs.NormalizeMsg(m) == vs.NormalizeMsg(v.Msg) || (v.Kind == "race" && vs.RaceSig(m) == vs.RaceSig(v.Msg)) {
 				found = true
 			}
 		}
@@ -370,7 +395,7 @@ func (c *Ctx) e1Violation(scn string, v vs.Violation) {
 		}
 		last = r
 	}
-	rf := ReplayFile{Property: c.ID, Part: c.Part, Kind: "e1", Scenario: scn, Devs: v.Devs, Sig: sig, Msg: v.Msg, Trace: last.Trace}
+	rf := ReplayFile{Property: c.ID, Part: c.Part, Kind: "e1", Scenario: scn, Devs: v.Devs, Policy: policy, Sig: sig, Msg: v.Msg, Trace: last.Trace}
 	c.viols = append(c.viols, viol{Sig: sig, Msg: v.Msg, Replay: c.writeReplay(rf)})
 }
 
